@@ -82,10 +82,10 @@ def gen_cases(rng, tier):
         ops = []
         for _k in range(rng.randint(4, 12 if tier == 'quick' else 25)):
             kind = rng.choice(['apply', 'apply', 'evolve', 'evolve_inplace', 'rdm', 'expect', 'add', 'axpy', 'scale',
-                               'copy', 'to_cirq', 'iht', 'flip', 'norm', 'empty_copy', 'apply_op'])
+                               'copy', 'to_cirq', 'iht', 'flip', 'norm', 'empty_copy', 'apply_op', 'genu'])
             i, j, t = rng.randrange(NW), rng.randrange(NW), rng.randrange(NW)
             h = rng.randrange(NH)
-            if kind in ('apply', 'evolve', 'apply_op'):
+            if kind in ('apply', 'evolve', 'apply_op', 'genu'):
                 ops.append([kind, i, h, t])
             elif kind == 'evolve_inplace':
                 ops.append([kind, i, h])
@@ -107,7 +107,8 @@ def gen_cases(rng, tier):
         # propagation and its iht data, then apply again): results must not depend on that order
         for h in range(NH):
             a, b, t = rng.randrange(NW), rng.randrange(NW), rng.randrange(NW)
-            ops += [['apply', a, h, t], ['evolve', b, h, t], ['iht', h], ['expect', a, h, b], ['apply', b, h, t]]
+            ops += [['apply', a, h, t], ['evolve', b, h, t], ['iht', h], ['expect', a, h, b], ['apply', b, h, t],
+                    ['genu', a, h, t], ['iht', h], ['evolve', b, h, t], ['apply', a, h, t]]
         cases.append({'kind': 'hist', 'norb': norb, 'mode': mode, 'n': nn, 'sz': sz, 'wf': wf, 'hams': hams, 'ops': ops})
     return cases
 
@@ -160,6 +161,13 @@ def _do(op, W, H, fqe, copy, numpy):
             W[op[3]] = W[op[1]].time_evolve(0.05, H[op[2]])
         except RuntimeError:
             return ('n', None, 'refused')
+        return ('w', op[3], fqeio.read_state(W[op[3]]))
+    if k == 'genu':
+        # the polynomial propagator given the Hamiltonian object directly (it builds and consumes iht data itself)
+        try:
+            W[op[3]] = W[op[1]].apply_generated_unitary(0.05, 'taylor', H[op[2]], accuracy=1e-12, expansion=60)
+        except Exception as e:  # noqa
+            return ('n', None, 'refused:' + type(e).__name__)
         return ('w', op[3], fqeio.read_state(W[op[3]]))
     if k == 'evolve_inplace':
         try:
@@ -338,7 +346,7 @@ def _operand_lost_flags(step, modeflags):
     from those of the wavefunction family of the case (they were reset to the defaults by empty_copy(), by
     apply(SparseHamiltonian) or by a single-term time_evolve earlier in the history)"""
     op = step['op']
-    reads = {'apply': [1], 'apply_op': [1], 'evolve': [1], 'evolve_inplace': [1], 'rdm': [1, 3], 'expect': [1, 3],
+    reads = {'apply': [1], 'apply_op': [1], 'evolve': [1], 'genu': [1], 'evolve_inplace': [1], 'rdm': [1, 3], 'expect': [1, 3],
              'to_cirq': [1], 'norm': [1], 'add': [1, 2], 'axpy': [1, 2], 'scale': [1], 'copy': [1], 'empty_copy': [1]}.get(op[0], [])
     fl = step.get('wflags')
     if not fl or not modeflags:
